@@ -1339,10 +1339,116 @@ def chunks(items, maxbuilds=128):
     return out
 
 
+# ---------------------------------------------------------------------------
+# rejected documents: an add_document() that raises part-way must leave no
+# trace in the documents added afterwards in the same writer
+
+REJ_ALPHA = ["full", "min", "bad_late", "bad_early", "col_only"]
+
+
+def rej_doc(kind, i):
+    k = u"k%d" % i
+    if kind == "full":
+        return {"key": k, "alpha": [u"A%d" % i, i], "body": u"body %d" % i, "cc": u"c%d" % i, "num": i}
+    if kind == "min":
+        return {"key": k}
+    if kind == "col_only":
+        return {"key": k, "cc": u"only%d" % i}
+    if kind == "bad_late":
+        # fields are processed in sorted-name order: alpha, body, cc, key are
+        # accepted before num overflows its 32 bits
+        return {"key": k, "alpha": [u"LEAK%d" % i], "body": u"leaked body %d" % i, "cc": u"leak%d" % i, "num": 2 ** 40}
+    if kind == "bad_early":
+        return {"key": k, "aa": 2 ** 40, "alpha": [u"never%d" % i], "body": u"never"}
+    raise ValueError(kind)
+
+
+def rej_schema():
+    from whoosh import fields
+    return fields.Schema(key=fields.ID(stored=True, unique=True), aa=fields.NUMERIC(int, bits=32),
+                         alpha=fields.STORED, body=fields.TEXT(stored=True, vector=True),
+                         cc=fields.ID(sortable=True), num=fields.NUMERIC(int, bits=32, stored=True, sortable=True))
+
+
+def rej_case(seq, storage):
+    """-> list of (sig, detail)"""
+    layout = {"storage": storage}
+    st = corpus.open_storage(storage)
+    ix = st.create_index(rej_schema())
+    res = []
+    good = []
+    try:
+        w = ix.writer()
+        for i, kind in enumerate(seq):
+            d = rej_doc(kind, i)
+            try:
+                w.add_document(**d)
+                if kind.startswith("bad"):
+                    res.append(("rejected|not-rejected", "out-of-range value accepted: %r" % (d,)))
+                good.append(d)
+            except ValueError:
+                if not kind.startswith("bad"):
+                    raise
+        w.commit()
+        with ix.searcher() as s:
+            r = s.reader()
+            if r.doc_count_all() != len(good):
+                res.append(("rejected|doc-count", "seq %r: doc_count_all=%d, %d documents were accepted"
+                            % (seq, r.doc_count_all(), len(good))))
+            for docnum, d in enumerate(good):
+                if docnum >= r.doc_count_all():
+                    break
+                sf = r.stored_fields(docnum)
+                exp = dict((k, v) for k, v in d.items() if k in ("key", "alpha", "body", "num"))
+                if sf != exp:
+                    extra = sorted(set(sf) - set(exp))
+                    res.append(("rejected|stored|%s" % ("leak" if extra else "wrong"),
+                                "seq %r: stored fields of %s are %r, supplied %r" % (seq, d["key"], sf, exp)))
+                cc = r.column_reader("cc")[docnum] if r.has_column("cc") else u""
+                if cc != d.get("cc", u""):
+                    res.append(("rejected|column:cc", "seq %r: column cc of %s is %r, supplied %r"
+                                % (seq, d["key"], cc, d.get("cc", u""))))
+                if "num" in d and r.has_column("num") and r.column_reader("num")[docnum] != d["num"]:
+                    res.append(("rejected|column:num", "seq %r: column num of %s is %r, supplied %r"
+                                % (seq, d["key"], r.column_reader("num")[docnum], d["num"])))
+                hasvec = r.has_vector(docnum, "body")
+                if hasvec != ("body" in d):
+                    res.append(("rejected|vector", "seq %r: has_vector(body) of %s is %r" % (seq, d["key"], hasvec)))
+            for t in (u"leaked", u"never"):
+                if ("body", t) in r:
+                    res.append(("rejected|lexicon", "seq %r: term %r of a rejected document is in the lexicon" % (seq, t)))
+    except Exception as e:
+        res.append(("rejected|" + exc_kind(e), "seq %r raised %r" % (seq, e)))
+    finally:
+        corpus.destroy_index(ix)
+    return res
+
+
+def rej_task(t):
+    maxlen, nsl, sl = t
+    acc = core.Acc()
+    i = 0
+    for n in range(1, maxlen + 1):
+        for seq in itertools.product(REJ_ALPHA, repeat=n):
+            i += 1
+            if i % nsl != sl:
+                continue
+            for storage in ("ram", "file"):
+                acc.count("evaluations")
+                acc.count("rejected_doc_cases")
+                if any(k.startswith("bad") for k in seq) and any(not k.startswith("bad") for k in seq):
+                    acc.count("distinct_nontrivial")
+                for sig, detail in rej_case(list(seq), storage):
+                    acc.violation(sig, {"kind": "rej", "seq": list(seq), "storage": storage}, detail)
+    return acc.result()
+
+
 def task(t):
     """Pool entry point: ("col", column-level task) | ("ix", index-level task)."""
     if t[0] == "col":
         return col_task(t[1])
+    if t[0] == "rej":
+        return rej_task(t[1])
     return ix_task(t[1])
 
 
@@ -1407,7 +1513,10 @@ def run(ctx):
         "through stored_fields, document(), all_stored_fields, Hit.fields, Hit[f], per-segment and whole-index "
         "column_reader()[doc] and iteration, and (file builds) re-opened without mmap and copied to RAM. "
         "evaluations = column round trips + index readings; non-trivial = at least one row / document carries "
-        "a value; cases enumerated without repetition")
+        "a value; cases enumerated without repetition. rejected documents: every sequence of <=3 (thorough 4) "
+        "add_document calls from {full, key only, column only, rejected late (earlier stored fields/columns/"
+        "vectors already accepted), rejected early} in one writer: accepted documents must carry exactly what "
+        "was supplied and rejected ones leave no trace")
     ctx.assumptions = [
         "documents are identified by an indexed unique key (searcher.document_number), never by position",
         "absent column values must read as the documented default of the column type (b'' / zero bytes / the "
@@ -1436,7 +1545,8 @@ def run(ctx):
     # big column cases first (longest tasks), then simplest-first
     big = [t for t in col_tasks if t[1][0] == "refbig"]
     rest = [t for t in col_tasks if t[1][0] != "refbig"]
-    ctx.pmap(task, [("col", t) for t in big + rest] + [("ix", t) for t in ix_tasks])
+    rej = [("rej", (3 if ctx.tier == "quick" else 4, 8, sl)) for sl in range(8)]
+    ctx.pmap(task, [("col", t) for t in big + rest] + [("ix", t) for t in ix_tasks] + rej)
     need = ["refbytes_short_refs", "refbytes_dropped_value_warnings", "varbytes_offsets_array_read",
             "varbytes_offsets_wider_than_16bit", "column_cases_with_padding", "multi_segment_readers",
             "segment_lacks_column", "hit_column_fallbacks", "file_storage_builds"]
@@ -1447,6 +1557,9 @@ def run(ctx):
 
 def replay(case):
     core.setup_process(0)
+    if case["kind"] == "rej":
+        res = rej_case(case["seq"], case["storage"])
+        return {"ok": not res, "what": res}
     if case["kind"] == "col":
         return replay_col(case)
     return replay_ix(case)
